@@ -27,6 +27,7 @@ void vp_spawn(void(*fn)(void*),void*arg){ g_threads.emplace_back(fn,arg); }
 void vp_atomic_begin(void){} void vp_atomic_end(void){}
 void vp_shared(const void*,size_t){}
 void vp_point(const char*){}
+void vp_nothrow(bool){}
 }
 int main(int argc,char**argv){
   if(argc<2){fprintf(stderr,"usage: %s <entry>\n",argv[0]);return 2;}
